@@ -36,7 +36,8 @@ ASSUMPTIONS = ['loopback TCP is reliable']
 REQUIRED = ['oracle.client-exact', 'oracle.server-conservation', 'oracle.healthy-undisturbed',
             'oracle.msg-id-per-thread', 'oracle.non-interference', 'baton.switches',
             'oracle.simultaneous-refusals', 'oracle.local-title-per-call',
-            'oracle.simultaneous-retrieves', 'sim.overlapping-retrieves', 'oracle.slow-reader-left-alone']
+            'oracle.simultaneous-retrieves', 'sim.overlapping-retrieves', 'oracle.slow-reader-left-alone',
+            'oracle.admission-independent']
 
 ROUNDS = {'quick': 24, 'thorough': 240}
 SIZES = {'quick': [16, 16, 4, 16, 24, 16, 8, 16], 'thorough': [4, 16, 16, 48, 16, 32, 8, 16]}
@@ -60,6 +61,8 @@ def plan(tier, seed):
         specs.append({'name': 'slow', 'index': k})
     for k in range(2 if tier == 'quick' else 24):
         specs.append({'name': 'pure', 'index': k})
+    for k in range(4 if tier == 'quick' else 48):
+        specs.append({'name': 'hook', 'index': k})
     nb = BATON_ROUNDS[tier]
     for part in range(8):
         specs.append({'name': 'baton', 'lo': part * nb // 8, 'hi': (part + 1) * nb // 8})
@@ -85,6 +88,10 @@ def run_shard(spec, tier, seed):
     if spec['name'] == 'slow':
         from . import c20slow
         c20slow.run_round(res, {'slow': True, 'round': spec['index'], 'seed': seed})
+        return res
+    if spec['name'] == 'hook':
+        from . import c20hook
+        c20hook.run_round(res, {'hook': True, 'round': spec['index'], 'seed': seed})
         return res
     if spec['name'] == 'move':
         from . import c20move
@@ -113,6 +120,10 @@ def replay(case):
     if case.get('slow'):
         from . import c20slow
         c20slow.run_round(res, case)
+        return res
+    if case.get('hook'):
+        from . import c20hook
+        c20hook.run_round(res, case)
         return res
     if case.get('move'):
         from . import c20move
